@@ -4,7 +4,7 @@
 use crate::util::*;
 use mini_mcmc::stats::{collect_rhat, ChainStats, ChainTracker, MultiChainTracker};
 use ndarray::Array1;
-use serde_json::{json, Value};
+use serde_json::json;
 
 fn fx(x: f32, bits: u32) -> i64 {
     let v = (x as f64) * (1u64 << bits) as f64;
